@@ -63,7 +63,9 @@ fn module_plan(t: &mut Tape, p: &Program) -> ModulePlan {
     }
     let style = (0..nf).map(|_| (0..nf).map(|_| t.below(5) as u8).collect()).collect();
     let rooted = (0..nf).map(|_| (0..nf).map(|_| t.chance(1, 4)).collect()).collect();
-    ModulePlan { files, file_of, style, rooted, paren_lists: t.bool() }
+    let paren_lists = t.bool();
+    let module_start = if nf > 1 && t.chance(1, 3) { Some(1 + t.below(nf - 1)) } else { None };
+    ModulePlan { files, file_of, style, rooted, paren_lists, module_start }
 }
 
 fn plan_of(m: &ModulePlan) -> SurfacePlan {
